@@ -124,6 +124,14 @@ std::vector<Sector> decode_mfm_track(const BitStream& bits, bool verbose)
   Sector sec;
   int sec_size;
   enum MfmDecodeState state = MfmDecodeState::LookingForSectorHeader;
+  size_t header_end = 0;
+  // The data record must closely follow its sector header (a real
+  // controller gives up after a few tens of bytes).  If we accepted a
+  // record found further away, we would pair the header with the data
+  // of a later sector whose own header was unreadable.  80 MFM-encoded
+  // bytes is more than twice the standard gap and much less than a
+  // sector.
+  constexpr size_t max_header_to_record_bits = 80u * 16u;
   while (bits_avail)
     {
       // Look for the bytes leading up to an address mark:
@@ -135,6 +143,16 @@ std::vector<Sector> decode_mfm_track(const BitStream& bits, bool verbose)
       if (!found)
 	break;
       thisbit = found->first + 1;
+      if (state == MfmDecodeState::LookingForRecord
+	  && thisbit - header_end > max_header_to_record_bits)
+	{
+	  if (verbose)
+	    {
+	      std::cerr << "No data record follows the header of sector "
+			<< sec.address << "; dropping it\n";
+	    }
+	  state = MfmDecodeState::LookingForSectorHeader;
+	}
       // The next byte is an address mark; either the ID address mark
       // (which appears after gap3) or the data address mark (which
       // appears after gap2).
@@ -172,6 +190,7 @@ std::vector<Sector> decode_mfm_track(const BitStream& bits, bool verbose)
 						       error))
 		      {
 			state = MfmDecodeState::LookingForRecord;
+			header_end = thisbit;
 			continue;
 		      }
 		  }
